@@ -46,9 +46,17 @@ pub fn gen_workload(sub: u64) -> Workload {
             corpus.files.push((format!("m{}/t{i}.txt", i % 7), c));
         }
     }
+    if rng.chance(1, 4) {
+        // symbolic links to files of the tree (searched only under -L, then under the link's name)
+        let tops: Vec<String> = corpus.files.iter().map(|(p, _)| p.clone()).filter(|p| !p.contains('/')).collect();
+        for (i, t) in tops.iter().take(2).enumerate() {
+            corpus.links.push((format!("ln{i}.txt"), t.clone()));
+        }
+    }
     let explicit_only = rng.chance(1, 8);
     if explicit_only {
         corpus.files.clear();
+        corpus.links.clear();
         let ne = 2 + rng.below(7);
         for i in 0..ne {
             let nl = 3 + rng.below(30);
@@ -116,6 +124,29 @@ pub fn gen_workload(sub: u64) -> Workload {
     let mut extra_flags = vec![];
     for f in ["--line-buffered", "--block-buffered", "--no-mmap", "--mmap", "-i", "--column", "--no-ignore", "--hidden", "-a", "--trim", "--no-unicode", "-U", "-U", "-z", "-Elatin1"] {
         if rng.chance(1, 9) && !(f == "--no-mmap" && extra_flags.iter().any(|x: &String| x == "--mmap")) && !(f == "--block-buffered" && extra_flags.iter().any(|x: &String| x == "--line-buffered")) {
+            extra_flags.push(f.to_string());
+        }
+    }
+    // A second, wider pool: the oracle is relative (-jN against -j1 of the same command), so any
+    // flag that keeps every output line attributable to its file may take part.
+    let heading = matches!(mode.as_str(), "heading" | "context-heading" | "sorted");
+    for f in ["-w", "-F", "--max-count=2", "--max-columns=40", "--max-columns-preview", "--max-depth=2", "--max-filesize=2K", "-g!f1*", "-b", "-o", "--passthru", "-rX", "-N", "-v", "--no-messages", "--one-file-system", "-L", "--vimgrep", "--count-matches", "--include-zero", "--multiline-dotall", "--no-ignore-vcs"] {
+        if !rng.chance(1, 16) {
+            continue;
+        }
+        let ok = match f {
+            // raw lines (possibly empty) would be taken for block separators under a heading
+            // (--crlf and --null-data are left out: they change how headings, separators and
+            // records are terminated, which this line-oriented block parser does not follow)
+            "-N" => !heading && mode != "context-no-heading",
+            // switches headings off
+            "--vimgrep" => mode == "no-heading",
+            "--count-matches" | "--include-zero" => mode == "count",
+            "--passthru" => mode == "heading",
+            "-o" | "-rX" => !extra_flags.iter().any(|x: &String| x == "--passthru"),
+            _ => true,
+        };
+        if ok && mode != "files" && mode != "json" || matches!(f, "--max-depth=2" | "--max-filesize=2K" | "-g!f1*" | "-L" | "--one-file-system" | "--no-ignore-vcs") {
             extra_flags.push(f.to_string());
         }
     }
